@@ -1,23 +1,14 @@
 """Routes a run request to its engine (imported once in the template)."""
-from sim import world_a
+import importlib.util
 
-ENGINES = {"A": world_a.run}
+from sim import world_a, world_boot, world_t
 
-try:
+ENGINES = {"A": world_a.run, "T": world_t.run, "BOOT": world_boot.run}
+
+if importlib.util.find_spec("sim.world_b") is not None:
     from sim import world_b
+
     ENGINES["B"] = world_b.run
-except ImportError:
-    pass
-try:
-    from sim import world_t
-    ENGINES["T"] = world_t.run
-except ImportError:
-    pass
-try:
-    from sim import world_boot
-    ENGINES["BOOT"] = world_boot.run
-except ImportError:
-    pass
 
 
 def dispatch(req, boot):
